@@ -27,16 +27,16 @@ type xLoop struct {
 }
 
 type xState struct {
-	regs  map[string]*Lin // nil entry = unknown
-	facts []Fact
-	cmpA, cmpB *Lin // last compare operands (flags), nil if flags unknown
-	moved map[string]bool // pointer registers (by base param) that were advanced on this path
-	trail string
-	stored []xStore // extents stored so far on this path (for the exact-overlap rule)
-	scr    map[string][]uint8 // scratch parameter -> per-byte status (scrZ..scrS), see scratchAccess
-	testV   *Lin            // operand of the last single-bit TEST (flags), nil otherwise
-	testBit int             // the tested bit
-	cov     map[string]*Lin // streamed parameter accessed through base+index: length of the prefix accessed so far without a gap
+	regs       map[string]*Lin // nil entry = unknown
+	facts      []Fact
+	cmpA, cmpB *Lin            // last compare operands (flags), nil if flags unknown
+	moved      map[string]bool // pointer registers (by base param) that were advanced on this path
+	trail      string
+	stored     []xStore           // extents stored so far on this path (for the exact-overlap rule)
+	scr        map[string][]uint8 // scratch parameter -> per-byte status (scrZ..scrS), see scratchAccess
+	testV      *Lin               // operand of the last single-bit TEST (flags), nil otherwise
+	testBit    int                // the tested bit
+	cov        map[string]*Lin    // streamed parameter accessed through base+index: length of the prefix accessed so far without a gap
 }
 
 type xStore struct {
@@ -138,39 +138,39 @@ type xAccess struct {
 }
 
 type xContract struct {
-	size map[string]*Lin // pointer parameter -> guaranteed bytes (over the routine's scalar symbols); slices: "<p>.len" implicitly
-	pre  []Fact          // preconditions on scalar parameters
+	size       map[string]*Lin   // pointer parameter -> guaranteed bytes (over the routine's scalar symbols); slices: "<p>.len" implicitly
+	pre        []Fact            // preconditions on scalar parameters
 	consumeSet map[string][]*Lin // streamed parameter -> allowed total advances at the end of a phase
-	mayBeNil map[string]bool
-	overlap  map[string][]string // source parameter -> destination parameters that may alias it exactly (in-place operation)
-	scratch  map[string]int      // scratch parameter -> size: zero on entry (a fresh local of the Go caller), staged and re-used
+	mayBeNil   map[string]bool
+	overlap    map[string][]string // source parameter -> destination parameters that may alias it exactly (in-place operation)
+	scratch    map[string]int      // scratch parameter -> size: zero on entry (a fresh local of the Go caller), staged and re-used
 }
 
 type xResult struct {
-	overlaps  []Obligation
-	scratchObl []Obligation
-	scratchLoads int
+	overlaps       []Obligation
+	scratchObl     []Obligation
+	scratchLoads   int
 	overlapChecked int
-	r         *Routine
-	accesses  map[int]*xAccess // by instruction index (worst status over states)
-	consumption []Obligation
-	states    int
-	problems  []string
-	maxStates int
+	r              *Routine
+	accesses       map[int]*xAccess // by instruction index (worst status over states)
+	consumption    []Obligation
+	states         int
+	problems       []string
+	maxStates      int
 }
 
 type xAnalysis struct {
-	r      *Routine
-	flow   *FlowResult
-	blocks []*xBlock
-	blockOf []int
-	idom   []int
-	loops  map[int]*xLoop // by header block
-	contract *xContract
-	res    *xResult
-	symN   int
-	rpo    []int
-	dataSize map[string]int
+	r         *Routine
+	flow      *FlowResult
+	blocks    []*xBlock
+	blockOf   []int
+	idom      []int
+	loops     map[int]*xLoop // by header block
+	contract  *xContract
+	res       *xResult
+	symN      int
+	rpo       []int
+	dataSize  map[string]int
 	recording bool
 	trackExit bool
 	liveIn    []map[string]bool
@@ -907,7 +907,7 @@ func (a *xAnalysis) checkAccesses(s *xState, idx int) {
 						}
 						a.res.overlapChecked++
 						// with dst == src exactly: the load must not read bytes this path has already overwritten
-						d1 := off.Sub(st.off).Sub(linConst(st.w))     // load starts at or after the end of the stored range
+						d1 := off.Sub(st.off).Sub(linConst(st.w))  // load starts at or after the end of the stored range
 						d2 := st.off.Sub(off).Sub(linConst(width)) // load ends at or before the start of the stored range
 						if !ProveNonNeg(d1, s.facts) && !ProveNonNeg(d2, s.facts) {
 							key := fmt.Sprintf("%s/%s: load of %s after store to %s", a.r.Arch, a.r.Name, pname, dstP)
@@ -1420,7 +1420,7 @@ func gprNames(arch string) []string {
 }
 
 type loopDelta struct {
-	delta map[string]int64 // register -> constant per-iteration change
+	delta  map[string]int64 // register -> constant per-iteration change
 	varies map[string]bool
 }
 
@@ -1784,13 +1784,14 @@ func (s *xState) roundQuotients() {
 	}
 }
 
-
 // Scratch discipline (SCRATCH-REINIT). The fused GCM routines stage partial blocks in a small scratch block that the Go
 // caller hands in zeroed. Per byte of the scratch the status is
-//   Z  known zero (entry, or an explicit store of the constant 0)
-//   F  fresh: written (or left zero) since the last full-vector load consumed the block
-//   X  consumed: data of a previous staging that a vector load has already used
-//   S  possibly stale: a variable-length copy went over consumed bytes without the block being cleared first
+//
+//	Z  known zero (entry, or an explicit store of the constant 0)
+//	F  fresh: written (or left zero) since the last full-vector load consumed the block
+//	X  consumed: data of a previous staging that a vector load has already used
+//	S  possibly stale: a variable-length copy went over consumed bytes without the block being cleared first
+//
 // A variable-length store (offset not constant on the path) turns the 16-byte block it starts in from Z/F into F and from
 // X into S; a vector load (>= 16 bytes) must find no X or S byte and turns F into X. Joins take the maximum.
 const (
